@@ -186,7 +186,7 @@ def whole_case(args):
     try:
         prog, params = WHOLE
         dom = RatDom(); it = G.Interp(prog, dom); it.prog_params = params; log = []
-        install_storage_hooks(it, log)
+        install_storage_hooks(it, log); it.set_global("vp_thrown", 0); it.set_global("vp_guard_armed", False)
         F = lambda q: G.FV(Fr(q), Fr(q))
         ts = []
         for d in range(nd):
